@@ -5,13 +5,14 @@
           are written) + Eql/RuleEval.v ([run]: ExceptIf/Alternative/Next selection, concluded_before, descriptor).
    Construction: proved for EVERY program ([C08_build_all]: the heap surgery yields the written tree, every node once).
    Evaluation: proved for every program without next_rule ([C08_rules]), and for programs whose only next_rule is the
-   last top-level branch, without refinements of its own and with a conclusion of its own ([C08_rules_next], up to
-   permutation).  Other programs with next_rule are compared with the faithful model and the Spec; the class
+   last top-level branch, possibly with refinements of its own, with conclusions of its own ([C08_rules_next],
+   [C08_rules_next2], up to permutation).  Other programs with next_rule are compared with the faithful model and the Spec; the class
    [later_ref_next] (reading not settled by the property text) with the model only.  All former defects (C08-a..h) are
    regression theorems. *)
 From Coq Require Import List ZArith Bool Arith Permutation.
 From Krrood Require Import Eql.RuleSpec Eql.RuleEval Eql.RuleBuild Eql.RulePure Eql.RuleEvalProofs Eql.RuleSpecProofs Eql.RuleProofs
-  Eql.RuleNextProofs Eql.RuleNextSpecProofs Eql.RuleBuildProofs Eql.RuleBuildAll.
+  Eql.RuleNextProofs Eql.RuleNextSpecProofs Eql.RuleBuildProofs Eql.RuleBuildAll Eql.RuleNextTreeProofs
+  Eql.RuleNextTreeSpecProofs.
 Import ListNotations.
 
 (* construction, for EVERY rule program of the grammar (any nesting, any number of siblings, any conditions and
@@ -37,12 +38,18 @@ Theorem C08_rules_next : forall prog, Fb_next prog = true -> forall W,
   exists rows xs, model prog W = Some rows /\ singles rows = Some xs /\ Permutation xs (rdr prog W).
 Proof. exact rules_next_ok. Qed.
 
-(* evaluation of Next(l, leaf) at the root, for every Next-free l with distinct nodes and every domain: first-pass rows
-   (l's conclusion, else the leaf's) followed by second-pass rows (the leaf's conclusion where it is not covered yet) *)
-Theorem C08_ruleeval_root_next : forall W id idr l csr cr,
-  nextfree l = true -> NoDup (ids (Node id SNext l (Leaf idr csr cr))) ->
-  run W (Node id SNext l (Leaf idr csr cr)) = flat_map (f1 l csr cr) (enum W) ++ flat_map (f2 l csr cr) (enum W).
-Proof. exact run_root_next. Qed.
+(* wider: the last top-level branch is a next_rule that may carry refinements of its own (no alternative / next_rule in
+   its block), no other next_rule, conclusions of the next_rule's branch distinct from the others'; up to permutation *)
+Theorem C08_rules_next2 : forall prog, Fb_next2 prog = true -> forall W,
+  exists rows xs, model prog W = Some rows /\ singles rows = Some xs /\ Permutation xs (rdr prog W).
+Proof. exact rules_next2_ok. Qed.
+
+(* evaluation of Next(l, r) at the root, for all Next-free l and r with distinct nodes and every domain: first-pass rows
+   (l's conclusion, else r's) followed by second-pass rows (r's conclusion where it is not covered yet) *)
+Theorem C08_ruleeval_root_next : forall W id l r,
+  nextfree l = true -> nextfree r = true -> NoDup (ids (Node id SNext l r)) ->
+  run W (Node id SNext l r) = flat_map (g1 l r) (enum W) ++ flat_map (g2 l r) (enum W).
+Proof. exact run_root_next_tree. Qed.
 
 (* evaluation: on EVERY tree without Next whose nodes are pairwise distinct, and every domain, the generator
    semantics with concluded_before / stale flags / dynamic conclusion sets computes the pure per-element reading *)
@@ -113,6 +120,11 @@ Theorem C08_unsettled_reading :
   In (3, 1) (rdr w_unsettled W8) /\ ~ In (3, 1) (model_tags w_unsettled W8) /\ In (3, 2) (model_tags w_unsettled W8).
 Proof. exact unsettled_reading. Qed.
 
+Example C08_nonvacuous2 :
+  Fb_next2 w_next_ref = true /\ Fb_next w_next_ref = false /\
+  rdr w_next_ref W8 = [(0, 0); (1, 1); (0, 2); (2, 2); (0, 3); (3, 3); (2, 4); (2, 5); (2, 6); (2, 7)].
+Proof. exact next2_nonvacuous. Qed.
+
 Example C08_nonvacuous :
   Fb_next w_next = true /\ Fb_next w_alt_next = true /\
   Fb ex_prog = true /\
@@ -123,6 +135,7 @@ Proof. exact ex_nonvacuous2. Qed.
 Print Assumptions C08_build_all.
 Print Assumptions C08_rules.
 Print Assumptions C08_rules_next.
+Print Assumptions C08_rules_next2.
 Print Assumptions C08_ruleeval_root_next.
 Print Assumptions C08_ruleeval_ok.
 Print Assumptions C08_tree_is_rdr.
